@@ -1,6 +1,6 @@
 (* Compiled on every check run (never cached): statement pins, so that a
    property theorem cannot be weakened silently, and the axioms each depends on. *)
-From Stam Require Import Base.Tac Model.Rel Spec.RelSpec Proofs.Rel Model.RelArms Gen.RelPairTable Proofs.AgreeRelPair Gen.RelTsSetTable Proofs.AgreeRelSet Props.C13.
+From Stam Require Import Base.Tac Model.Rel Spec.RelSpec Proofs.Rel Model.RelArms Gen.RelPairTable Proofs.AgreeRelPair Gen.RelTsSetTable Proofs.AgreeRelSet Gen.RelSetTables Proofs.AgreeRelSets Props.C13.
 Check (C13_pair_spec : forall ws o s r, wf s -> wf r -> test_pair ws o s r = spec_pair ws o s r).
 Check (C13_set_set_spec : forall ws o A B, set_ok A -> set_ok B ->
   test_set_set ws o A B = spec_set_set ws o (items A) (items B)).
@@ -57,3 +57,10 @@ Check (C13_code_ts_set_test_is_the_model : forall ws o s B,
   interp_ts_set pair_arms ts_set_arms ws o s B = Some (test_ts_set ws o s B)).
 Print Assumptions C13_code_ts_set_test_is_the_model.
 Print Assumptions C13_code_ts_set_test_has_documented_meaning.
+Check (C13_code_set_ts_test_is_the_model : forall ws o A r,
+  interp_set_ts pair_arms set_ts_arms ws o A r = Some (test_set_ts ws o A r)).
+Check (C13_code_set_set_test_is_the_model : forall ws o A B,
+  interp_set_set pair_arms ts_set_arms set_set_arms ws o A B = Some (test_set_set ws o A B)).
+Print Assumptions C13_code_set_ts_test_is_the_model.
+Print Assumptions C13_code_set_set_test_is_the_model.
+Print Assumptions C13_code_set_set_test_has_documented_meaning.
